@@ -360,7 +360,7 @@ CHECKS = {
         "min_obs": {"datagrams_compared": 2000, "replies_checked": 200, "malformed_frames": 10},
     },
     "C19": {
-        "scenarios": [("C19-counter", "vsim"), ("C19-account", "vsim"), ("C19-account", "vreal", 0.5), ("C19-quota", "vsim"), ("C19-reload", "vreal"), ("C19-register", "vreal"), ("C19-conc", "vrace")],
+        "scenarios": [("C19-counter", "vsim"), ("C19-account", "vsim"), ("C19-account", "vreal", 0.5), ("C19-partial", "vsim"), ("C19-quota", "vsim"), ("C19-reload", "vreal"), ("C19-register", "vreal"), ("C19-conc", "vrace")],
         "races": True,
         "rule": "(a) a time-series counter under 2600 increments at virtual instants (bursts within a millisecond, gaps of seconds to six "
                 "weeks, extra reads that move the roll-up trigger to every operation count): Load = sum of increments, sum of history "
